@@ -13,6 +13,7 @@ one() { pid=$1; c=$2; wt=/root/scratch/revert_$c
   git -C $wt revert --abort >/dev/null 2>&1; git -C /repo worktree remove --force $wt; }
 export -f one
 list=$(grep "^fixed:" KNOWN_FINDINGS.txt | sed 's/fixed: property=\(C[0-9]*\) \([0-9a-f]*\).*/\1 \2/')
-echo "$list" | grep -E "^(C03|C05|C12) " | while read p c; do one $p $c; done &
-echo "$list" | grep -vE "^(C03|C05|C12) " | xargs -P 3 -L1 bash -c 'one $0 $1'
+# LANES=gen | nongen | both (default)
+case "${LANES:-both}" in gen|both) (echo "$list" | grep -E "^(C03|C05|C12) " | while read p c; do one $p $c; done) & ;; esac
+case "${LANES:-both}" in nongen|both) echo "$list" | grep -vE "^(C03|C05|C12) " | xargs -P 3 -L1 bash -c 'one $0 $1' ;; esac
 wait
